@@ -84,9 +84,12 @@ struct Run{
     }
     return true;
   }
-  void apply_switches(SimSolver* s){
-    s->Set_CoherentRhoTerms(c.sw.coh); s->Set_NonCoherentRhoTerms(c.sw.noncoh); s->Set_OtherRhoTerms(c.sw.other);
-    s->Set_GammaScalarTerms(c.sw.gs); s->Set_OtherScalarTerms(c.sw.os);
+  // initial switch settings, applied in a plan-chosen order
+  void apply_switches(SimSolver* s,int order){
+    static const int perms[6][5]={{0,1,2,3,4},{4,3,2,1,0},{3,4,0,1,2},{2,0,4,1,3},{1,3,0,4,2},{4,0,3,2,1}};
+    const int* pm=perms[((order%6)+6)%6];
+    for(int q=0;q<5;q++) switch(pm[q]){ case 0: s->Set_CoherentRhoTerms(c.sw.coh); break; case 1: s->Set_NonCoherentRhoTerms(c.sw.noncoh); break; case 2: s->Set_OtherRhoTerms(c.sw.other); break;
+                                        case 3: s->Set_GammaScalarTerms(c.sw.gs); break; default: s->Set_OtherScalarTerms(c.sw.os); }
   }
   void apply_stepper(SimSolver* s){
     const gsl_odeiv2_step_type* t=sc.is_sim()?sim_stepper(sc.tableau,sc.bufmode,sc.dydt_in):wrapped_stepper(sc.name);
@@ -134,7 +137,7 @@ struct Run{
   void op_evolve(const Json& o){
     double dt=o["dt"].as_num(0.5); if(!(dt>=0)) dt=0; if(dt>20) dt=20;
     begin("evolve",c.moved_in_run?"C10":"C15");
-    apply_switches(live); apply_stepper(live);
+    apply_stepper(live);
     bool numerics=c.sw.any();
     std::vector<double> before;
     if(!numerics){ unsigned stride=nsun*nsun*nrhos+nsc; before.assign(live->rho_ptr(0,0),live->rho_ptr(0,0)+stride*nx); }
@@ -153,6 +156,7 @@ struct Run{
     std::string evprop=(prop=="C10")?"C10":"C04";
     if(rc!=CALL_OK){ c.violation(evprop,"evolve:threw",sc.name,"Evolve threw \""+g_what+"\""); return; }
     if(numerics && c.rhs_evals>=2 && c.distinct_inputs>=2) nontrivial=true;
+    if(numerics && dt>0 && c.rhs_evals==0){ c.violation(evprop,"evolve:no-integration","switches","numerical terms are enabled but Evolve never evaluated the right-hand side"); return; }
     sum_dt+=dt; steps_total+=sc.adaptive?c.napply:sc.nsteps;
     // clock
     double t_now=live->Get_t(),t_expect=t_ini+sum_dt;
@@ -200,11 +204,31 @@ struct Run{
     }
   }
 
+  // an Evolve that ends in the library's exception (the stepper reports a hard error): nothing may be leaked; the solver is re-initialised afterwards
+  void op_evolve_fail(const Json& o){
+    begin("evolve_fail","C15");
+    StepCfg keep=sc; sc.name="sim"; sc.adaptive=o["adaptive"].as_bool(true); sc.nsteps=5; sc.reject=0; sc.fail=0; sc.abs=sc.rel=0.1;
+    apply_stepper(live);
+    c.log.clear(); c.rhs_evals=0; c.napply=0; c.nseen=0;
+    c.hard_fail_at=1+(long)(o["at"].as_int(0)%4);
+    int rc=lib_call([&]{ live->Evolve(0.5); });
+    bool fired=(c.hard_fail_at<0); c.hard_fail_at=0;
+    sc=keep;
+    shp("evolve_fail");
+    if(fired){ c.ctr->add("fault_stepper_hard_error_fired"); nontrivial=true;
+      if(rc!=CALL_EXCEPTION){ c.violation("C04","evolve:error-swallowed","hard-error","the ODE stepper reported an error but Evolve returned normally"); return; } }
+    // resynchronise: same configuration, fresh clock and state
+    Json cfg=Json::object(); cfg["nx"]=(int)nx; cfg["nsun"]=(int)nsun; cfg["nrhos"]=(int)nrhos; cfg["nscalars"]=(int)nsc; cfg["t0"]=t_ini; cfg["seed"]=(long long)o["vs"].as_int(3); cfg["grid"]="lin"; cfg["xa"]=1.0; cfg["xb"]=2.0;
+    Json ro=Json::object(); ro["cfg"]=cfg; op_reini(ro);
+  }
+
   void op_switch(const Json& o){
     int w=(int)(o["which"].as_int(0)%5); bool on=o["on"].as_bool(true);
     begin("switch","C15");
+    // exactly the setter the user would call, including redundant calls: the derived "any numerics" flag must come out right whatever the order
     switch(w){ case 0: c.sw.coh=on; break; case 1: c.sw.noncoh=on; break; case 2: c.sw.other=on; break; case 3: c.sw.gs=on; break; default: c.sw.os=on; }
-    lib_call([&]{ apply_switches(live); });
+    lib_call([&]{ switch(w){ case 0: live->Set_CoherentRhoTerms(on); break; case 1: live->Set_NonCoherentRhoTerms(on); break; case 2: live->Set_OtherRhoTerms(on); break;
+                              case 3: live->Set_GammaScalarTerms(on); break; default: live->Set_OtherScalarTerms(on); } });
     shp("switch"); shp((long)w*2+on);
   }
 
@@ -226,7 +250,19 @@ struct Run{
     if(!assign) rc=lib_call([&]{ nw=new SimSolver(std::move(*old)); });
     else{
       bool fresh=o["fresh"].as_bool(true);
-      rc=lib_call([&]{ nw=new SimSolver(&c); if(!fresh){ nw->ini(1+(unsigned)(o["n"].as_int(1)%3),2+(unsigned)(o["d"].as_int(0)%5),1,(unsigned)(o["s"].as_int(0)%2),-2.0); } *nw=std::move(*old); });
+      bool evolved_target=o["evolve_target"].as_bool(false);
+      rc=lib_call([&]{
+        nw=new SimSolver(&c);
+        if(evolved_target){
+          // the destination has itself been configured like the source and evolved (so it carries cached stepper buffers of its own)
+          nw->ini(nx,nsun,nrhos,nsc,t_ini); if(nx>=2) nw->Set_xrange(1.0,2.0,"linear");
+          for(unsigned ix=0;ix<nx;ix++){ for(unsigned ir=0;ir<nrhos;ir++){ double* q=nw->rho_ptr(ix,ir); for(unsigned k=0;k<nsun*nsun;k++) q[k]=0.25; } for(unsigned is=0;is<nsc;is++) nw->scal_ptr(ix)[is]=0.5; }
+          apply_switches(nw,0); apply_stepper(nw);
+          SimSolver* keep=c.live; c.live=nw; nw->Evolve(0.05); c.live=keep;
+        }
+        else if(!fresh){ nw->ini(1+(unsigned)(o["n"].as_int(1)%3),2+(unsigned)(o["d"].as_int(0)%5),1,(unsigned)(o["s"].as_int(0)%2),-2.0); }
+        *nw=std::move(*old);
+      });
     }
     if(rc!=CALL_OK){ c.violation("C10","move:threw",assign?"assign":"ctor","moving the solver threw \""+g_what+"\""); return; }
     live=nw; c.live=nw;
@@ -301,6 +337,9 @@ struct Run{
     double xa=grid.front(),xb=grid.back();
     double xi=xa+x*(xb-xa);
     if(o["at_node"].as_bool(false)){ xi=grid[(size_t)(o["ix"].as_int(0)%nx)]; }
+    int edge=(int)o["edge"].as_int(0);     // +-n: n units in the last place outside the last / first node
+    if(edge>0){ xi=xb; for(int q=0;q<edge;q++) xi=std::nextafter(xi,1e300); }
+    if(edge<0){ xi=xa; for(int q=0;q<-edge;q++) xi=std::nextafter(xi,-1e300); }
     bool outside=(xi<xa||xi>xb);
     size_t k=0; if(!outside){ while(k+2<nx && grid[k+1]<xi) k++; }
     double f=outside?0:(xi-grid[k])/(grid[k+1]-grid[k]);
@@ -338,15 +377,33 @@ struct Run{
     // another solver of another dimension on the same simulated thread (the interpolation scratch is thread local and sized by its first user)
     begin("second_solver","C15");
     unsigned d2=2+(unsigned)(o["d"].as_int(0)%5); if(d2==nsun) d2=2+(d2-2+1)%5;
-    double got=0; std::vector<double> oc(d2*d2,0.0); oc[0]=1.0;   // identity operator: expectation = trace of the state
+    struct Mini: public squids::SQuIDS{
+      double w[6];
+      squids::SU_vector H0(double x,unsigned) const{ squids::SU_vector h(nsun); Mat m(nsun); for(unsigned k=0;k<nsun;k++) m.m[k][k]=w[k]*x; std::vector<double> cc=to_components(m); for(unsigned k=0;k<nsun*nsun;k++) h[k]=cc[k]; return h; }
+      double* rp(unsigned ix){ return &state[ix].rho[0][0]; }
+    };
+    Rng r((uint64_t)o["vs"].as_int(5)+d2);
+    std::vector<double> oc(d2*d2),s0(d2*d2),s1(d2*d2); for(unsigned k=0;k<d2*d2;k++){ oc[k]=r.uniform(-1,1); s0[k]=r.uniform(-1,1); s1[k]=r.uniform(-1,1); }
+    double wv[6]; for(int k=0;k<6;k++) wv[k]=r.uniform(-2,2);
+    double xq=1.0+r.uniform(0,1),tau=0.7; bool avg=o["avg"].as_bool(false);
+    double got=0;
     int rc=lib_call([&]{
-      squids::SQuIDS s2(2,d2,1,0,0.0);
-      s2.Set_xrange(1.0,2.0,"linear");
-      got=s2.GetExpectationValueD(squids::SU_vector(oc),0,1.5);
+      Mini s2; for(int k=0;k<6;k++) s2.w[k]=wv[k];
+      s2.ini(2,d2,1,0,0.0); s2.Set_xrange(1.0,2.0,"linear");
+      for(unsigned k=0;k<d2*d2;k++){ s2.rp(0)[k]=s0[k]; s2.rp(1)[k]=s1[k]; }
+      s2.Evolve(tau);      // no numerics: only the clock advances
+      squids::SU_vector opv(oc);
+      if(avg){ std::vector<bool> avr(d2*(d2-1)/2+1); got=s2.GetExpectationValueD(opv,0,xq,1e9,avr); }
+      else got=s2.GetExpectationValueD(opv,0,xq);
     });
     shp("second_solver"); shp((long)d2);
-    if(rc!=CALL_OK) c.violation("C05","expect:threw","second-solver","a second solver of dimension "+std::to_string(d2)+" on the same thread threw \""+g_what+"\"");
-    (void)got;
+    if(rc!=CALL_OK){ c.violation("C05","expect:threw","second-solver","a second solver of dimension "+std::to_string(d2)+" on the same thread threw \""+g_what+"\""); return; }
+    double f=xq-1.0; Mat rho=from_components(d2,&s0[0]).scaled(1-f)+from_components(d2,&s1[0]).scaled(f); Mat O=from_components(d2,&oc[0]);
+    double want=0,mp=0;
+    for(unsigned j=0;j<d2;j++) for(unsigned k=0;k<d2;k++){ double ph=(wv[j]-wv[k])*xq*tau; mp=std::max(mp,std::fabs(ph)); want+=(rho.m[j][k]*cplx(std::cos(ph),-std::sin(ph))*O.m[k][j]).real(); }
+    double tol=1e-12*(1+mp)*d2*d2*(rho.maxabs()*O.maxabs()+1e-300);
+    if(!(std::fabs(got-want)<=tol)){ char b[220]; snprintf(b,sizeof b,"a second solver of dimension %u on the same thread (the first one has dimension %u): GetExpectationValueD = %.15g, reference %.15g",d2,nsun,got,want); c.violation("C05","expect:mismatch","second-solver",b); return; }
+    c.ctr->add("expect_second_solver_checked");
   }
 
   void op_bad_call(const Json& o){
@@ -368,6 +425,7 @@ struct Run{
   void run_op(const Json& o){
     std::string op=o["op"].as_str();
     if(op=="evolve") op_evolve(o);
+    else if(op=="evolve_fail") op_evolve_fail(o);
     else if(op=="switch") op_switch(o);
     else if(op=="stepper"){ read_stepper(o); shp("stepper:"+sc.name); }
     else if(op=="move_ctor") op_move(o,false);
@@ -399,7 +457,7 @@ struct SolverEngine: Engine{
     o["name"]=names[k];
     bool adaptive=(k==5)?true:r.chance(k==6?0.6:0.5);
     o["adaptive"]=adaptive;
-    static const double eps[]={1e-9,1e-10,1e-10,1e-10,1e-12,1e-9,1e-6};
+    static const double eps[]={1e-6,1e-10,1e-10,1e-10,1e-12,1e-9,1e-6};   // rk2 adaptive at tight tolerances needs thousands of steps: its closed-form comparison is mostly skipped, the per-call oracle is not
     // fixed stepping through a driver that owns a controller fails (GSL_FAILURE) whenever a step misses the controller's bounds: keep them loose there
     o["abs"]=adaptive?eps[k]:0.1; o["rel"]=adaptive?eps[k]:0.1;
     o["h"]=r.chance(0.3)?2.2e-16:(r.chance(0.5)?1e-3:1e-1);
@@ -419,6 +477,7 @@ struct SolverEngine: Engine{
     if(allow_outside && r.chance(0.25)) x=r.chance(0.5)?-r.uniform(0.01,1.5):1+r.uniform(0.01,1.5);
     else if(r.chance(0.1)) x=r.chance(0.5)?0.0:1.0;
     o["x"]=x; o["at_node"]=r.chance(0.15);
+    if(allow_outside && r.chance(0.12)){ static const int ulps[]={1,1,2,16,1000}; o["edge"]=ulps[r.below(5)]*(r.chance(0.5)?1:-1); }
     return o;
   }
 
@@ -432,7 +491,7 @@ struct SolverEngine: Engine{
     p["alloc"]=al;
     p["cfg"]=gen_cfg(r,prop=="C05");
     Json sw=Json::array(); int mask=(int)r.below(32); if(prop=="C04"&&r.chance(0.7)) mask|=(1<<r.below(3)); if(prop=="C05"&&r.chance(0.5)) mask=0;
-    for(int i=0;i<5;i++) sw.push((mask>>i)&1); p["switches"]=sw;
+    for(int i=0;i<5;i++) sw.push((mask>>i)&1); p["switches"]=sw; p["switch_order"]=(int)r.below(6);
     Json ops=Json::array();
     double L=9.0;
     auto evolve=[&](double dt){ Json o=Json::object(); o["op"]="evolve"; o["dt"]=dt; ops.push(o); };
@@ -447,21 +506,23 @@ struct SolverEngine: Engine{
         if(k==0){ double dt=dtgen()*(r.chance(0.2)?50:1); if(mask) dt=std::min(dt,1.0); ops.push(gen_stepper(r,dt,L)); evolve(dt); }
         else if(k==1) ops.push(gen_expect(r,true));
         else if(k==2){ Json o=Json::object(); o["op"]="reini"; o["cfg"]=gen_cfg(r,true); ops.push(o); }
-        else if(k==3){ Json o=Json::object(); o["op"]="second_solver"; o["d"]=(int)r.below(5); ops.push(o); }
-        else{ Json o=Json::object(); o["op"]=r.chance(0.5)?"move_ctor":"move_assign"; o["fresh"]=r.chance(0.5); o["reini_old"]=r.chance(0.3); o["n"]=(int)r.below(3); o["d"]=(int)r.below(5); o["s"]=(int)r.below(2); ops.push(o); }
+        else if(k==3){ Json o=Json::object(); o["op"]="second_solver"; o["d"]=(int)r.below(5); o["avg"]=r.chance(0.3); o["vs"]=(long long)r.below(100000); ops.push(o); }
+        else{ Json o=Json::object(); o["op"]=r.chance(0.5)?"move_ctor":"move_assign"; o["fresh"]=r.chance(0.5); o["evolve_target"]=r.chance(0.3); o["reini_old"]=r.chance(0.3); o["n"]=(int)r.below(3); o["d"]=(int)r.below(5); o["s"]=(int)r.below(2); ops.push(o); }
       }
     }else{ // C10 and C15: sequences
       int n=r.range(2,8);
       for(int i=0;i<n;i++){
         int k=(int)r.weighted({40,14,12,8,8,6,6,6});
         if(prop=="C15"&&r.chance(0.15)) k=8;
+        if(prop=="C15"&&r.chance(0.12)) k=9;
         if(k==0){ double dt=dtgen(); if(i==0||r.chance(0.35)) ops.push(gen_stepper(r,dt,L)); evolve(dt); }
         else if(k==1){ Json o=Json::object(); o["op"]="switch"; o["which"]=(int)r.below(5); o["on"]=r.chance(0.5); ops.push(o); }
         else if(k==2){ ops.push(gen_stepper(r,1.0,L)); }
-        else if(k==3||k==4){ Json o=Json::object(); o["op"]=k==3?"move_ctor":"move_assign"; o["fresh"]=r.chance(0.5); o["reini_old"]=r.chance(0.4); o["n"]=(int)r.below(3); o["d"]=(int)r.below(5); o["s"]=(int)r.below(2); ops.push(o); }
+        else if(k==3||k==4){ Json o=Json::object(); o["op"]=k==3?"move_ctor":"move_assign"; o["fresh"]=r.chance(0.5); o["evolve_target"]=r.chance(0.35); o["reini_old"]=r.chance(0.4); o["n"]=(int)r.below(3); o["d"]=(int)r.below(5); o["s"]=(int)r.below(2); ops.push(o); }
         else if(k==5){ Json o=Json::object(); o["op"]="reini"; o["cfg"]=gen_cfg(r,false); ops.push(o); }
         else if(k==6) ops.push(gen_expect(r,prop=="C15"));
-        else if(k==7){ Json o=Json::object(); o["op"]="second_solver"; o["d"]=(int)r.below(5); ops.push(o); }
+        else if(k==7){ Json o=Json::object(); o["op"]="second_solver"; o["d"]=(int)r.below(5); o["avg"]=r.chance(0.3); o["vs"]=(long long)r.below(100000); ops.push(o); }
+        else if(k==9){ Json o=Json::object(); o["op"]="evolve_fail"; o["at"]=(int)r.below(4); o["adaptive"]=r.chance(0.6); o["vs"]=(long long)r.below(100000); ops.push(o); }
         else{ Json o=Json::object(); o["op"]="bad_call"; static const char* bk[]={"xrange_size","xrange_unsorted","xrange_scale","xrange_log0","get_i"}; o["kind"]=bk[r.below(5)]; o["above"]=r.chance(0.5); ops.push(o); }
       }
     }
@@ -493,6 +554,7 @@ struct SolverEngine: Engine{
       R.c.live=R.live;
       if(rc!=CALL_OK){ R.c.violation("C15","exc:unexpected","ini","constructing the solver threw \""+g_what+"\""); }
       else if(R.setup_state(plan["cfg"])){
+        lib_call([&]{ R.apply_switches(R.live,(int)plan["switch_order"].as_int(0)); });
         R.shp((long)R.nx*1000+R.nsun*100+R.nrhos*10+R.nsc);
         const Json& ops=plan["ops"];
         for(size_t i=0;i<ops.size()&&i<64&&out.ok;i++){ R.c.opi=(int)i; R.run_op(ops[i]); }
